@@ -256,12 +256,20 @@ class SeqVal:
 # broadcasting / elementwise
 
 
+def _plain_list(x):
+    if getattr(x, "kind", None) == "list" and hasattr(x, "content") and not isinstance(x.content, SeqVal):
+        return [_plain_list(y) for y in x.content]
+    return x
+
+
 def as_operand(x):
     """-> (shape, reader, dtype)"""
     if isinstance(x, Arr):
         return x.shape, x.reader(), x.dtype
     if isinstance(x, Masked):
         raise EngineError("masked selection used elementwise")
+    if getattr(x, "kind", None) == "list" and hasattr(x, "content") and not isinstance(x.content, SeqVal):
+        x = _plain_list(x)          # a python list object (heap reference) used as an array operand
     if isinstance(x, (list, tuple)):
         a = from_nested(x)
         return a.shape, a.reader(), a.dtype
@@ -623,6 +631,20 @@ def _mask_select(a, mask):
         raise EngineError("mask rank")
     require_dim_eq(a.shape[0], mask.shape[0], "mask-length")
     mr = mask.reader()
+    n = a.shape[0]
+    if dim_conc(n):
+        # concrete length and concrete mask values: the selection is an ordinary (fresh) array of the selected rows
+        flags = [norm(mr((t,))) for t in range(n)]
+        if all(isinstance(f, bool) for f in flags):
+            rows = [t for t in range(n) if flags[t]]
+            src = a.reader()
+            rest = tuple(a.shape[1:])
+
+            def fn(idx, rows=rows, src=src):
+                if is_conc(idx[0]):
+                    return src((rows[int(idx[0])],) + tuple(idx[1:]))
+                return _pick([src((t,) + tuple(idx[1:])) for t in rows], idx[0])
+            return new_arr((len(rows),) + rest, fn, a.dtype)
     return Masked(a.reader(), a.shape[0], lambda t: mr((t,)), tuple(a.shape[1:]), a.dtype)
 
 
@@ -739,7 +761,12 @@ def setitem(a, key, value, aug=None):
             v = scalar_binop(aug, old(bidx), v)
         v = _cast(v, a.dtype) if a.dtype in ("float", "int", "complex", "bool") else v
         if isinstance(v, Cx) and a.dtype == "float":
-            raise EngineError("complex stored into float array")
+            if not aug:
+                raise EngineError("complex stored into float array")
+            # a[i] op= z with a float array: a[i] op z is a numpy complex128 scalar; the item store casts it to the real
+            # part and emits numpy's ComplexWarning (checked natively on numpy 2.x); a plain python complex would raise
+            st.trace.append(("warning", "ComplexWarning", st.where))
+            v = v.re
 
         def fn(idx, old=old, bidx=bidx, v=v):
             return ite(_idx_eq(idx, bidx), v, lambda: old(idx))
